@@ -35,6 +35,19 @@ type c01bStep struct {
 	// table changes: the client's cached locations for the affected range are stale from here on
 	Relayout *c01bRelayout `json:"relayout,omitempty"`
 	Busy     *c01bBusy     `json:"busy,omitempty"`
+	// Evict (a step of its own): a cached region R is merged with its right-hand neighbour (which the client
+	// does not know) onto another server; a request for R's first row is refused by the old server and waits
+	// for R to be re-established - whose hbase:meta lookup is held - while a request for the neighbour's first
+	// row misses the cache, looks the merged region up and evicts R; then the held lookup is answered
+	Evict *c01bEvict `json:"evict,omitempty"`
+}
+
+type c01bEvict struct {
+	Region  int    `json:"region"`
+	Server  int    `json:"server"`
+	Marker  string `json:"marker"`
+	Marker2 string `json:"marker2"`
+	Marker3 string `json:"marker3"`
 }
 
 // c01bBusy: a request is told "retry later" Count times; while it sleeps between its attempts the region it
@@ -98,7 +111,7 @@ func c01bRunInBubble(c c01bCase) (out Outcome) {
 		exists[tb.Name] = true
 	}
 	for _, st := range c.Steps {
-		if st.Relayout != nil || st.Busy != nil {
+		if st.Relayout != nil || st.Busy != nil || st.Evict != nil {
 			// (refusals take a round trip: a client that never stops asking the wrong place runs into its deadline)
 			cl.MinLatency = 2 * time.Millisecond
 		}
@@ -226,9 +239,106 @@ func c01bRunInBubble(c c01bCase) (out Outcome) {
 		}
 	}
 	knewBetter := 0
+	evictSteps := 0
 	for si, st := range c.Steps {
 		if rl := st.Relayout; rl != nil && exists[st.Table] {
 			applyRelayout(rl, st.Table, si, nil)
+		}
+		if ev := st.Evict; ev != nil {
+			if !exists[st.Table] {
+				continue
+			}
+			if o := func() *Outcome {
+				regs := cl.TableRegions(st.Table)
+				if len(regs) < 2 || len(addrs) < 2 {
+					return nil
+				}
+				i := ev.Region % (len(regs) - 1)
+				r, q := regs[i], regs[i+1]
+				// R known and in use, Q unknown to the client
+				if err, cerr := doOp(client, context.Background(), st.Table, opSpec{Kind: "get", Key: evid.B(r.Start), Marker: ev.Marker3}); err != nil || cerr != nil {
+					return violp("request-failed", "step %d (evict): warm-up %v %v", si, err, cerr)
+				}
+				touched[string(r.Name)] = true
+				if o := checkExecs(); o != nil {
+					return o
+				}
+				for _, cr := range gohbase.VerifCachedRegions(client) {
+					if string(cr.Name()) == string(q.Name) {
+						return nil
+					}
+				}
+				to := addrs[ev.Server%len(addrs)]
+				if to == r.Addr {
+					to = addrs[(ev.Server+1)%len(addrs)]
+				}
+				hold := gohbase.VerifCreateRegionSearchKey([]byte(st.Table), r.Start)
+				if bytes.HasPrefix(gohbase.VerifCreateRegionSearchKey([]byte(st.Table), q.Start), hold) {
+					return nil
+				}
+				var srvIdx int
+				for k, a := range addrs {
+					if a == to {
+						srvIdx = k
+					}
+				}
+				applyRelayout(&c01bRelayout{Kind: "merge", Server: srvIdx}, st.Table, si, r)
+				cl.Lock()
+				cl.MetaHoldPrefix = hold
+				cl.Unlock()
+				bctx, cancel := context.WithTimeout(context.Background(), 3*time.Minute)
+				defer cancel()
+				var err, cerr error
+				done := make(chan struct{})
+				go func() {
+					defer close(done)
+					err, cerr = doOp(client, bctx, st.Table, opSpec{Kind: "get", Key: evid.B(r.Start), Marker: ev.Marker})
+				}()
+				time.Sleep(20 * time.Millisecond)
+				lerr, lcerr := doOp(client, bctx, st.Table, opSpec{Kind: "get", Key: evid.B(q.Start), Marker: ev.Marker2})
+				cl.Lock()
+				cl.MetaHoldPrefix = nil
+				cl.Unlock()
+				<-done
+				// the merged region is in the client's cache from the moment hbase:meta answered the neighbour's lookup
+				// (the evicted region's waiters are woken right then, before the neighbour's own request is through)
+				learnedAt := cl.Now()
+				qKey := gohbase.VerifCreateRegionSearchKey([]byte(st.Table), q.Start)
+				execs0, _, _ := cl.Snapshot()
+				for _, e := range execs0[seenExecs:] {
+					if e.Method == "MetaScan" && e.Executed && bytes.Equal(e.Row, qKey) {
+						learnedAt = e.T
+						break
+					}
+				}
+				if lerr != nil || err != nil {
+					return violp("request-failed", "step %d (evict): waiting request %v, neighbour's request %v", si, err, lerr)
+				}
+				if cerr != nil || lcerr != nil {
+					return violp("foreign-response", "step %d (evict): %v %v", si, cerr, lcerr)
+				}
+				// (The waiting request may be addressed to the evicted region once more: in the code as it is, its waiters are
+				// woken - through the region's establisher, whose lookup is cancelled when the region is marked dead - a few
+				// instructions before the evicting lookup detaches the region's connection, and a waiter that gets in
+				// between still finds that connection. C01 does not say how quickly a stale location has to be got over;
+				// the general oracle bounds the arrivals at places that are not right any more.)
+				_ = learnedAt
+				evictSteps++
+				return nil
+			}(); o != nil {
+				return *o
+			}
+			if o := checkExecs(); o != nil {
+				return *o
+			}
+			for _, rr := range cl.TableRegions(st.Table) {
+				for _, cr := range gohbase.VerifCachedRegions(client) {
+					if string(cr.Name()) == string(rr.Name) {
+						touched[string(rr.Name)] = true
+					}
+				}
+			}
+			continue
 		}
 		if b := st.Busy; b != nil && exists[st.Table] {
 			// (a step of its own)
@@ -427,6 +537,9 @@ func c01bRunInBubble(c c01bCase) (out Outcome) {
 	if knewBetter > 0 {
 		out.Labels = append(out.Labels, "layout_changed_while_a_request_was_backing_off")
 	}
+	if evictSteps > 0 {
+		out.Labels = append(out.Labels, "region_evicted_by_a_neighbours_lookup_while_requests_wait_for_it")
+	}
 	n := 0
 	for _, k := range staleArrivals {
 		n += k
@@ -524,6 +637,12 @@ func c01bGen(t *rapid.T) c01bCase {
 				Relayout: c01bRelayout{Kind: rapid.SampledFrom([]string{"split", "merge", "move"}).Draw(t, "brlkind"), At: rapid.SliceOfN(rapid.Byte(), 1, 3).Draw(t, "brlat"),
 					Server: rapid.IntRange(0, 3).Draw(t, "brlserver"), Server2: rapid.IntRange(0, 3).Draw(t, "brlserver2")}}}
 			c.Steps = append(c.Steps, st)
+			continue
+		}
+		if i > 0 && rapid.IntRange(0, 11).Draw(t, "evict") == 0 {
+			n += 3
+			c.Steps = append(c.Steps, c01bStep{Table: tb.Name, Evict: &c01bEvict{Region: rapid.IntRange(0, 7).Draw(t, "evregion"), Server: rapid.IntRange(0, 3).Draw(t, "evserver"),
+				Marker: fmt.Sprintf("mk%d", n-2), Marker2: fmt.Sprintf("mk%d", n-1), Marker3: fmt.Sprintf("mk%d", n)}})
 			continue
 		}
 		if i > 0 && rapid.IntRange(0, 7).Draw(t, "relayout") == 0 {
